@@ -493,6 +493,22 @@ fn run(name: &str, j: &J) -> Result<bool, String> {
             println!("  Some({}) as {}: {:?}", x, target, r.as_ref().map(|v| v.to_string()).map_err(|e| e.to_string()));
             Ok(true)
         }
+        // C14 / C07: an ON clause equating two columns of the SAME input does not pair rows of the two inputs
+        "c14_join_same_side_equality" => {
+            use qrlew::relation::Constraint;
+            let ls: Schema = vec![("id", DataType::integer_interval(0, 10), Some(Constraint::Unique)), ("x", DataType::integer_interval(0, 10), None)].into_iter().collect();
+            let rs: Schema = vec![("k", DataType::integer_interval(0, 10), Some(Constraint::Unique))].into_iter().collect();
+            let l: Relation = Relation::table().name("l").schema(ls).size(3).build();
+            let r: Relation = Relation::table().name("r").schema(rs).size(2).build();
+            let on = if j["swap"].as_bool().unwrap_or(false) { Expr::eq(Expr::qcol("_LEFT_", "id"), Expr::qcol("_LEFT_", "x")) } else { Expr::eq(Expr::qcol("_LEFT_", "x"), Expr::qcol("_LEFT_", "id")) };
+            let jn: Relation = Relation::join().name("j").inner(on.clone()).left(l).right(r).build();
+            // l = {(1,1),(2,2),(3,3)} satisfies x = id on every row; r = {10, 20}: the join has 3 * 2 = 6 rows and k takes each value 3 times
+            let kf = jn.schema().iter().last().unwrap().clone();
+            let declared_unique = matches!(kf.constraint(), Some(Constraint::Unique) | Some(Constraint::PrimaryKey));
+            println!("  JOIN ON {}: size {}, right column `{}` constraint {:?}; with l = (1,1),(2,2),(3,3) and r = 10, 20 the join has 6 rows and k repeats", on, jn.size(), kf.name(), kf.constraint());
+            let max_size = *jn.size().max().unwrap();
+            Ok(!declared_unique && max_size >= 6)
+        }
         _ => Err(format!("unknown replay `{}`", name)),
     }
 }
